@@ -9,7 +9,7 @@ import numpy as np
 import vlib
 from harness.speccommon import *
 
-LEVEL_TEXT = ('Lean 4 theorems about an executable model of Spectrum._ufunc/_interp_common: the result at every grid point is '
+LEVEL_TEXT = ('Lean 4 theorems about an executable model of Spectrum._ufunc/_interp_common (ufunc_pointwise, scalar_vector_elementwise, unit_handover_partial and operand_inside/outside are structural restatements of the model; the content is operand_is_interpolant — operands equal the independently defined piecewise-linear interpolant / the fill —, grid_spans_union_*, grid_step_le_requested and op_comm): the result at every grid point is '
               'op(S1(g), S2(g)) with Si the linear interpolant inside operand i\'s range and the fill value outside; the grid starts at '
               'the smaller minimum and ends at the larger maximum; add/multiply (any commutative op) are commutative incl. the '
               'left/right sampling swap; scalar/vector operands act element-wise on the unchanged grid; the right operand is used '
@@ -30,8 +30,10 @@ TRUSTED = ['scipy.interpolate.interp1d(kind="linear") is the piecewise-linear in
 UNPROVEN = ['unit_invariance at full strength (rescaling both operands\' wavelength axes commutes with the operation): oracle only',
             'operands unchanged / result is a new object: snapshots in the correspondence (no heap model)',
             'quadratic/cubic interpolation methods (spline kernels are not modelled); power between two spectra (irrational values)',
-            'grid_step_le_requested: oracle only']
-ASSUMPTIONS = ['a numeric sampling is below 1e9 x the union span (beyond that the 1e-9·Δ guard of _interp_common collapses the grid to one point; model and code agree there)',
+            ]
+ASSUMPTIONS = ['the documented two-element (below, above) fill_value raises ValueError in spectrum-spectrum arithmetic on the current code (fill_value * np.ones(n)); probed and counted (tag fill-pair:…), reported, not modelled',
+               'for scalar/vector operands the result shares its wavelength array with the operand ((s*2.0).wave is s.wave): counted (tag result-grid-aliases-operand); the result is a new Spectrum object and no lentil call mutates the array in place, so it is reported as an observation, not as a violation of "the result is a new spectrum"',
+               'a numeric sampling is below 1e9 x the union span (beyond that the 1e-9·Δ guard of _interp_common collapses the grid to one point; model and code agree there)',
                'both operands have at least two samples; division avoids zero denominators (values and fill of the divisor are non-zero)']
 
 W = ['m', 'um', 'nm', 'angstrom']
@@ -70,10 +72,16 @@ def generate(rng, tier):
             if dt1 == 'bool': v1 = [float(int(x) % 2) for x in v1]
             if dt2 == 'int': v2 = [float(max(int(x), 1 if fn == 'divide' else 0)) for x in v2]
             if dt2 == 'bool': v2 = [1.0 if fn == 'divide' else float(int(x) % 2) for x in v2]
+            fk = 'float'
             if dt1 != 'float' or dt2 != 'float':
                 fill = [0.5, 1.5, 0.25][int(rng.integers(0, 3))] if (fn == 'divide' or rng.integers(0, 3)) else 0.0
-            out.append({'kind': 'pair', 'fn': fn, 'w1': w1, 'v1': v1, 'w2': w2, 'v2': v2, 'u1': u1, 'u2': u2, 'vu': vu,
-                        'sampling': sm, 'fill': fill, 'rel': rel, 'dt1': dt1, 'dt2': dt2})
+            # how the fill value is passed: as a float, as a Python int, or not at all (the default fill_value=0 is an int)
+            if float(fill).is_integer() and rng.integers(0, 3): fk = 'default' if fill == 0 else 'int'
+            if fk == 'pair': fill = 0.0
+            elif fn != 'divide' and rng.integers(0, 4) == 0: fill, fk = 0.0, 'default'
+            if fn != 'divide' and rng.integers(0, 25) == 0: fk, fill = 'pair', 0.0       # documented (below, above) fill pair (probe), main call with default fill
+            out.append({'kind': 'pair', 'form': ['method', 'method', 'method+kw', 'operator'][int(rng.integers(0, 4))], 'fn': fn, 'w1': w1, 'v1': v1, 'w2': w2, 'v2': v2, 'u1': u1, 'u2': u2, 'vu': vu,
+                        'sampling': sm, 'fill': fill, 'fk': fk, 'rel': rel, 'dt1': dt1, 'dt2': dt2})
         elif t == 6:
             w = inc_grid(rng, int(rng.integers(2, 9)), bits=2)
             fn = (OPSN + ['power', 'rmul'])[int(rng.integers(0, 6))]
@@ -96,7 +104,10 @@ def signature(c):
 def nontrivial(c): return c['kind'] != 'pair' or c['w1'] != c['w2'] or c['u1'] != c['u2']
 def tags(c):
     t = [c['kind'], 'op:' + c['fn']]
+    if 'fk' in c: t.append('fill:' + c['fk'])
     t.append('dtype:' + c.get('dt1', 'float') + ('/' + c['dt2'] if 'dt2' in c else ''))
+    t += NOTES.pop(id(c), [])
+    if c['kind'] == 'pair': t += ['form:' + c.get('form', 'method')]
     if c['kind'] == 'pair': t += ['rel:' + c['rel'], 'sampling:' + str(c['sampling'] if isinstance(c['sampling'], str) else 'float'), 'units:' + ('same' if c['u1'] == c['u2'] else 'mixed')]
     return t
 
@@ -148,8 +159,18 @@ class guard:
 def _snap(s): return (s.wave.tobytes(), s.value.tobytes(), s.wave.shape, s.value.shape, s.waveunit, s.valueunit)
 def _out(r): return {'wave': [float(x) for x in r.wave], 'value': [float(x) for x in r.value], 'wu': r.waveunit, 'vu': r.valueunit}
 
-def _call(s1, fn, other, **kw):
+def _fillkw(c):
+    fk = c.get('fk', 'float')
+    return {} if fk in ('default', 'pair') else {'fill_value': int(c['fill']) if fk == 'int' else c['fill']}
+
+import operator
+OPER = {'add': operator.add, 'subtract': operator.sub, 'multiply': operator.mul, 'divide': operator.truediv, 'power': operator.pow}
+
+def _call(s1, fn, other, form='method', **kw):
     if fn == 'rmul': return other * s1
+    # the real operators (+ - * / **) take no options: usable when sampling and fill are the defaults
+    if form == 'operator' and kw.get('sampling', 'min') == 'min' and 'fill_value' not in kw: return OPER[fn](s1, other)
+    if form == 'method+kw': kw = dict(kw, method='linear')
     return getattr(s1, fn)(other, **kw)
 
 def impl(c):
@@ -172,20 +193,26 @@ def _pair(c, R, s1, s2, o):
             b1, b2 = _snap(s1), _snap(s2)
             smp = c['sampling'] if isinstance(c['sampling'], str) else c['sampling'] * float(MPU['nm'] / MPU[c['u1']])
             o['sampling'] = smp
-            kw = {'sampling': smp, 'fill_value': c['fill']}
-            r = _call(s1, c['fn'], s2, **kw)
+            kw = dict({'sampling': smp}, **_fillkw(c))
+            if c.get('fk') == 'pair':
+                try:
+                    s1.add(s2, fill_value=(0.5, 2.0)); o['pair'] = 'accepted'
+                except ValueError:
+                    o['pair'] = 'ValueError'
+                NOTES[id(c)] = ['fill-pair:' + o['pair']]
+            r = _call(s1, c['fn'], s2, form=c.get('form', 'method'), **kw)
             o['res'] = _out(r); o['new'] = (r is not s1) and (r is not s2) and not np.shares_memory(r.value, s1.value) and not np.shares_memory(r.value, s2.value)
             o['unchanged'] = (_snap(s1) == b1, _snap(s2) == b2)
             sw = {'left': 'right', 'right': 'left'}.get(c['sampling'], c['sampling']) if isinstance(c['sampling'], str) else c['sampling'] * float(MPU['nm'] / MPU[c['u2']])
             if c['fn'] in ('add', 'multiply') and (c['vu'] is None or c['u1'] == c['u2']):
-                r2 = _call(s2, c['fn'], s1, sampling=sw, fill_value=c['fill'])
+                r2 = _call(s2, c['fn'], s1, sampling=sw, **_fillkw(c))
                 r2.to(c['u1'])
                 o['swapped'] = _out(r2)
             o['units'] = {}
             for u in W:
                 a, b = s1.copy(), s2.copy(); a.to(u); b.to(u)
                 smu = c['sampling'] if isinstance(c['sampling'], str) else c['sampling'] * float(MPU['nm'] / MPU[u])
-                o['units'][u] = _out(_call(a, c['fn'], b, sampling=smu, fill_value=c['fill']))
+                o['units'][u] = _out(_call(a, c['fn'], b, sampling=smu, **_fillkw(c)))
             return o
 
 def _single(c, R, s1):
@@ -193,7 +220,8 @@ def _single(c, R, s1):
         b1 = _snap(s1)
         if k == 'scalar':
             cc = int(c['c']) if c['as_int'] else c['c']
-            r = _call(s1, c['fn'], cc)
+            r = _call(s1, c['fn'], cc, form='operator' if c['fn'] != 'rmul' and int(c['c'] * 8) % 2 == 0 else 'method')
+            if np.shares_memory(r.wave, s1.wave): NOTES[id(c)] = ['result-grid-aliases-operand']
             return {'res': _out(r), 'new': r is not s1, 'unchanged': _snap(s1) == b1}
         v = {'list': list, 'tuple': tuple, 'array': np.array}[c['as']](c['v'])
         try:
@@ -231,6 +259,7 @@ def compare(c, io, mo):
     return None
 
 # ------------------------------------------------------------------------------------------ oracle
+NOTES = {}
 NP = {'add': np.add, 'subtract': np.subtract, 'multiply': np.multiply, 'divide': np.true_divide, 'power': np.power, 'rmul': np.multiply}
 
 def oracle(c, io):
@@ -290,9 +319,13 @@ def oracle(c, io):
         s = io['swapped']
         if len(s['wave']) != len(r['wave']) or not all_close(s['wave'], r['wave'], 1e-12) or not all_close(s['value'], r['value'], 1e-9, atol):
             return f"{c['fn']} is not commutative: a∘b = {r['value']}, b∘a = {s['value']}"
-    if c['vu'] is None:
+    if c['vu'] is None or (c['fill'] == 0 and c['fn'] != 'divide'):
+        # densities (per unit wavelength) rescale by the unit factor: once for sums, twice for products; fill 0 only, because a
+        # non-zero fill value is a number in whatever unit the operands happen to be in
+        pw = 0 if c['vu'] is None else {'add': 1, 'subtract': 1, 'multiply': 2}[c['fn']]
         for u, ru in io['units'].items():
             fu = float(MPU[c['u1']] / MPU[u])
+            if pw: ru = dict(ru, value=[x * fu ** pw for x in ru['value']])
             if ru['wu'] != u: return f'result of operands in {u} is in {ru["wu"]}'
             if len(ru['wave']) != len(r['wave']) or not all_close(ru['wave'], [x * fu for x in r['wave']], 1e-12) or not all_close(ru['value'], r['value'], 1e-9, atol):
                 return f"outcome depends on the unit: operands in {u} give {len(ru['wave'])} samples {ru['value'][:4]}…, in {c['u1']},{c['u2']}: {len(r['wave'])} samples {r['value'][:4]}…"
